@@ -113,7 +113,7 @@ class Ctx:
         rc, out = sh(cmd, cwd=LEAN, timeout=3000)
         src = open(files[module]).read() if module in files else ""
         body = strip_lean_comments(src)
-        thms = re.findall(r"^\s*(?:private\s+|protected\s+)?theorem\s+([A-Za-z0-9_'.!?]+)", body, re.M)
+        thms = re.findall(r"^\s*(?:private\s+|protected\s+)?theorem\s+([^\s(:{\[]+)", body, re.M)
         if rc != 0:
             tail = "\n".join([l for l in out.splitlines() if not l.startswith("trace:")][-30:])
             for t in thms or ["<module>"]:
